@@ -254,3 +254,32 @@ Proof.
     + intros b [<-|[]]. exists ex_bin1. split; [reflexivity|vm_compute; congruence].
     + intros b x y p [H|[H|[]]]; inversion H; subst; cbn; auto.
 Qed.
+
+(* two binaries, one of 40 bytes = two full blocks of the 16-byte buffer plus a short last block of 8 bytes;
+   chip (1, 0) misses the first fill of the second binary; state mode *)
+Definition ex_bin40 : list Z := map (fun i => (7 * Z.of_nat i + 3) mod 256) (seq 0 40).
+Definition two_bins : list (list Z) := [ex_bin40; ex_bin1].
+Definition two_map : appmap := [(0, [((0, 0), [1]); ((1, 0), [5])]); (1, [((1, 0), [2; 3])])].
+Definition two_machine : machine :=
+  mkMachine 16 1612972032 (fun _ => 3842011136) [((0, 0), idle_chip); ((1, 0), idle_chip)] [[]; [(1, 0)]] [].
+
+Lemma two_binaries_example :
+  machine_wf two_machine /\ ctrl_wf ctrl_init two_machine /\ map_wf two_map
+  /\ bins_ok (m_buffer two_machine) two_bins /\ no_requested_waiting two_machine two_map
+  /\ ff_n_blocks (zlen ex_bin40) (m_buffer two_machine) = 3
+  /\ exists c' w' atts,
+       load_application two_bins ctrl_init (mkWorld two_machine []) two_map (state_args 30)
+       = Ok (c', w', Returned, atts)
+       /\ map fst atts = [two_map; [(1, [((1, 0), [2; 3])])]]
+       /\ core_at (w_m w') (1, 0, 5) = Some (mkCore STATE_RUN 30 ex_bin40)
+       /\ core_at (w_m w') (1, 0, 3) = Some (mkCore STATE_RUN 30 ex_bin1)
+       /\ length (filter (fun q => q_cmd q =? CMD_FFD) (sent w')) = 5%nat.
+Proof.
+  split; [apply machine_wfb_spec; vm_compute; reflexivity|].
+  split; [apply ctrl_wfb_spec; vm_compute; reflexivity|].
+  split; [apply map_wfb_spec; vm_compute; reflexivity|].
+  split; [apply bins_okb_spec; vm_compute; reflexivity|].
+  split; [apply no_requested_waitingb_spec; vm_compute; reflexivity|].
+  split; [vm_compute; reflexivity|].
+  eexists _, _, _. split; [vm_compute; reflexivity|]. repeat split; vm_compute; reflexivity.
+Qed.
